@@ -30,7 +30,7 @@ O_TRUNC = 0o1000
 O_ACCMODE = 3
 
 ERRNO = {"EPERM": 1, "ENOENT": 2, "EINTR": 4, "EPIPE": 32, "EINVAL": 22, "EFBIG": 27, "ENOSYS": 38, "EOPNOTSUPP": 95, "EAGAIN": 11, "EIO": 5, "EACCES": 13, "EXDEV": 18, "EMFILE": 24, "ENOSPC": 28,
-         "EROFS": 30, "EDQUOT": 122}
+         "EROFS": 30, "EDQUOT": 122, "EBUSY": 16}
 
 
 class HarnessError(Exception):
@@ -713,6 +713,9 @@ def apply_insertions(before, ins):
 _LOCK_RE = re.compile(rb"^next_reference_id: (\d+)\s*$", re.M)
 
 
+_LOCK_OTHER_KEY = re.compile(rb"^[a-z_][a-z0-9_]*: ?[A-Za-z0-9_.\"'-]{0,64}\s*$")
+
+
 def read_lock(data):
     """Parse a lock file's bytes: returns int or None (absent/corrupt)."""
     if data is None:
@@ -723,7 +726,8 @@ def read_lock(data):
     rest = _LOCK_RE.sub(b"", data)
     for ln in rest.split(b"\n"):
         s = ln.strip()
-        if s and not s.startswith(b"#") and s != b"---":
+        if s and not s.startswith(b"#") and s != b"---" and not _LOCK_OTHER_KEY.match(ln):
+            # (further top-level "key: scalar" entries are tolerated: a lock format that grows a field is still a lock)
             return None
     v = int(ms[0])
     return v if v <= 0xFFFFFFFF else None
